@@ -32,6 +32,9 @@ HOSTILE_LITERALS = ['select', 'SELECT * FROM a', 'where x', '* ,', ' as x', 'ord
                     'dir\\', '\\', '\\\\', 'a\\ where ', "it's\\",
                     # characters that str.splitlines() / a JavaScript line-terminator test take for line breaks, RAW inside the literal: the line clean-up of the query
                     # text (comment lines, stripping) must not reach into a literal
+                    # text that the SELECT-list rewrites (star between commas, ` as name,`, `, count(*)`) would touch if they ever saw literal contents — as fixed items,
+                    # so that the quick tier does not depend on the random sequences hitting them (found by tools/replay_seeds.py: a round-2 change had become a coin toss)
+                    'x, *, y', ', a.*,', ',*,', 'p as q, r', 'v AS w,', 'u, count(*)', ', COUNT( * ) ,', '*, b.*, *',
                     'L\x0cR', 'v\x0bt', 'fs\x1cx', 'gs\x1d', 'rs\x1ey', 'n\x85m', 'u\u2028v', 'p\u2029#q', '\x0c#not a comment']
 
 
